@@ -87,9 +87,12 @@ def main(seed, workers, planted, rest):
     names = set(rest)
     results = []
     worlds = int(os.environ.get('VERIF_WORLDS', 1500))
-    for e in list(P) + seeded_entries():
-        if names and e['name'] not in names:
-            continue
+    entries = [e for e in list(P) + seeded_entries() if not names or e['name'] in names]
+    part = os.environ.get('VERIF_SELFTEST_PART')        # "k/n": every n-th entry starting at k
+    if part:
+        k, n = (int(x) for x in part.split('/'))
+        entries = entries[k::n]
+    for e in entries:
         r = run_planted(e, seed, workers, worlds)
         results.append(r)
         print('%-42s %s rc=%d clauses=%s %.0fs' % (r['name'], 'DETECTED' if r['detected'] else 'MISSED',
@@ -99,7 +102,7 @@ def main(seed, workers, planted, rest):
             print(r['err'])
             ok = False
         sys.stdout.flush()
-    out = os.path.join(VERIF, 'evidence', 'selftest_planted.json')
+    out = os.environ.get('VERIF_SELFTEST_OUT') or os.path.join(VERIF, 'evidence', 'selftest_planted.json')
     os.makedirs(os.path.dirname(out), exist_ok=True)
     with open(out, 'w') as f:
         json.dump(dict(seed=seed, worlds=worlds, results=[{k: v for k, v in r.items() if k not in ('tail', 'err')}
